@@ -93,6 +93,22 @@ def gen_lines(rng, tier):
         L.append("between %d %d %d %d" % (rng.below(1 << 32), a, b, 200 if not big else 2000))
     for _ in range(6 if not big else 40):
         L.append("mixed %d %d" % (rng.below(1 << 32), 4000))
+    # operator== against the future stream: equal states, states that differ in one word / one bit
+    for _ in range(80 if not big else 600):
+        ws = [rng.next() if rng.below(4) else rng.choice([0, 1, U64, 1 << 63]) for _ in range(4)]
+        vs = list(ws)
+        m = rng.below(4)
+        if m == 1:
+            vs[rng.below(4)] ^= 1 << rng.below(64)
+        elif m == 2:
+            vs[rng.below(4)] = rng.next()
+        elif m == 3:
+            i, j = rng.below(4), rng.below(4)
+            vs[i], vs[j] = vs[j], vs[i]
+        L.append("geq st:%s st:%s" % (":".join(map(str, ws)), ":".join(map(str, vs))))
+    for _ in range(10):
+        a, b = rng.choice(seeds), rng.choice(seeds)
+        L.append("geq %s %s" % (a, b))
     return L
 
 
@@ -773,8 +789,13 @@ def run(chk, replay=None):
         info, changed = translate_rng.emit(gen)
         chk.cov["translated"] = info
         chk.cov["gen_changed_vs_committed"] = bool(changed)
+        info2, changed2 = translate_rng.emit_code(os.path.join(C.LEAN, "Vita", "C07", "GenCode.lean"),
+                                                  info["state_size"])
+        chk.cov["translated_code"] = info2
+        chk.cov["gencode_changed_vs_committed"] = bool(changed2)
     except Refuse as e:
-        broken.append("translator tools/translate_rng.py refuses the current xoshiro256ss.cc: %s" % e)
+        broken.append("translator tools/translate_rng.py refuses the current xoshiro256ss.{h,cc}: %s" % e)
+        info = None
     drv_ok = False
     if info is not None:
         drv_ok, out = C.lake_build(["c07_driver"])
@@ -783,7 +804,8 @@ def run(chk, replay=None):
         ok, msg = chk.prove("Vita.C07.Props", ["Vita.C07.Props"])
         if not ok:
             broken.append("theorems of Vita.C07.Props no longer check against the generated operand lists "
-                          "(write=%s read=%s): %s" % (info["write"], info["read"], msg))
+                          "/ the translated code of the generator (write=%s read=%s): %s"
+                          % (info["write"], info["read"], msg))
 
     # ---- (a) differential on the generator ---------------------------------------------------
     exe = C.build_harness("c07_rng", "asan", extra_flags=["-fsanitize-recover=undefined"])
@@ -807,6 +829,9 @@ def run(chk, replay=None):
         died[idx] = (rc, se)
     dl = [("stream " + ln.split(" ", 1)[1]) if ln.startswith("vstream ") else ln for ln in lines]
     dl = ["gen" if ln.startswith("mixed ") else ln for ln in dl]
+    # the translated seed / operator() are interpreted on the short streams as well
+    gidx = [i for i, ln in enumerate(lines) if ln.startswith("stream ") and int(ln.split()[2]) <= 1000]
+    dl += ["g" + lines[i] for i in gidx]
     lean = C.run_driver("c07_driver", dl) if drv_ok else None
 
     found, ndis = [], 0
@@ -836,6 +861,13 @@ def run(chk, replay=None):
             found.append((len(ln), "`%s`: %s" % (ln, "re-seeding with the same seed gives different draws in the "
                           "same process" if "nondet" in c else "a draw left the requested range"),
                           {"line": ln, "cpp": c}, {"kind": op, "clause": "nondet" if "nondet" in c else "range"}))
+        if op == "geq":
+            chk.count("geq:" + c)
+            if c not in ("equal same4", "different diff4"):
+                found.append((len(ln), "`%s`: operator== answers `%s` but the next four numbers are %s (or != is not "
+                              "its negation): equality of engines is not equality of their future streams"
+                              % (ln, c.split()[0], "the same" if "same4" in c else "different"),
+                              {"line": ln, "cpp": c}, {"kind": op, "clause": c}))
         if op == "load":
             chk.count("load:" + c.split()[0])
         if op == "cfgload":
@@ -864,6 +896,15 @@ def run(chk, replay=None):
                     broken.append("model and code disagree on `%s`: model `%s`, code `%s`" % (ln, l[:200], c[:200]))
         if i % 97 == 0:
             chk.sample({"line": ln, "cpp": c[:160], "model": (lean[i][:160] if lean and i < len(lean) else None)})
+    if lean is not None:
+        for k, i in enumerate(gidx):
+            j = len(lines) + k
+            chk.count("op:gstream")
+            if j < len(lean) and i < len(cpp) and lean[j] != cpp[i]:
+                ndis += 1
+                if ndis <= 5:
+                    broken.append("translated code and compiled code disagree on `%s`: interpreting the translated "
+                                  "seed / operator() gives `%s`, the engine `%s`" % (lines[i], lean[j][:200], cpp[i][:200]))
     chk.cov["model_vs_code_disagreements"] = ndis
     for _, what, rep, tags in sorted(found, key=lambda x: (x[0], x[1])):
         chk.violation(what, rep, tags=tags)
